@@ -66,10 +66,20 @@ class Ctx:
             # a method of the same name from *another* trait implemented for the type (or for a reference to it): with a
             # by-value receiver it is preferred over a `&self` method by method resolution, silently, for every caller
             # that has both traits in scope (`use crate::*`)
+            import re as _re
             for im in self.pdb.impls:
-                if im.get("trait") and im["trait"] != trait and im["self_ty"] in (self_ty, "&" + self_ty, "&mut " + self_ty) and name in im["items"] and im["items"][name] != tkey:
+                if not (im.get("trait") and im["trait"] != trait and name in im["items"] and im["items"][name] != tkey):
+                    continue
+                st_ = im["self_ty"]
+                blanket = bool(_re.match(r"^(&(mut )?)?[A-Z][A-Za-z0-9]*$", st_)) and st_.lstrip("&mut ") not in self.pdb.adts and "::" not in st_
+                if st_ in (self_ty, "&" + self_ty, "&mut " + self_ty):
                     inh = im["items"][name]
                     break
+                if blanket:
+                    # a blanket impl (`impl<T: ..> Other for T`) gives every type the method too
+                    self.rep.ob("%s.shadowing" % self.rep.prop, "%s::%s" % (short(self_ty), name), False,
+                                "a blanket impl of %s gives %s a method `%s` that competes with %s::%s in method resolution (a by-value receiver wins silently)" % (im["trait"], short(self_ty), name, trait, name), self.pdb.where(im["items"][name]))
+                    return
             if inh is None:
                 for tname, tr in self.pdb.traits.items():
                     pass
